@@ -1,16 +1,584 @@
 package main
 
-import "github.com/smart-core-os/sc-golang/verifharness/lib"
+// K4 tie: schedules executed on the real internal/minibus through the yield points, compared step by
+// step with the Lean bus model (driverC10 works as an acceptor, see lean/ScVerif/C10/Drv.lean).
+
+import (
+	"context"
+	"fmt"
+	"math/rand"
+	"regexp"
+	"runtime"
+	"sort"
+	"strconv"
+	"strings"
+	"sync"
+	"time"
+
+	"github.com/smart-core-os/sc-golang/internal/minibus"
+	"github.com/smart-core-os/sc-golang/internal/verifhook"
+	"github.com/smart-core-os/sc-golang/verifharness/lib"
+)
 
 const (
 	tieSched     = "bus-schedules"
-	tieSchedRule = "stub"
+	tieSchedRule = "K4: macro moves (start a Send, release a goroutine parked at bus.send.afterSnapshot / bus.send.beforeListener / bus.listen.beforeRegister / listener.stop.enter, cancel a listen context, cancel a send context, post one receive) chosen at random among those applicable, executed on the real minibus.Bus with 1-3 senders and 0-3 listeners; after every move the harness waits until every goroutine is parked at a yield point or blocked (wait reason from runtime.Stack: select / sync.RWMutex.RLock / sync.RWMutex.Lock / chan receive; no timeouts decide an outcome) and reports per sender {idle+results, parked where, blocked on RLock, blocked in select}, per listener {Listen parked/returned, watcher awaiting/parked/blocked on Lock/gone, events received, receive pending, close seen}; the Lean model must have a configuration reachable by the same macro move (all interleavings and select choices of the released goroutines) with exactly this observation. one evaluation = one schedule (all its steps agree); non-trivial = the schedule contains a cancel while some sender is inside Send; distinct = distinct op sequences"
 	tiePipe      = "pipeline-census"
-	tiePipeRule  = "stub"
+	tiePipeRule  = "not run"
 )
 
-type SchedCase struct{}
+type SchedCase struct {
+	Seed  int64 `json:"seed"`
+	NS    int   `json:"ns"`
+	NL    int   `json:"nl"`
+	Todo  []int `json:"todo"`
+	Steps int   `json:"steps"`
+}
 
-func schedScenarios(f lib.Flags) []Scenario           { return nil }
-func runSched(sc Scenario, drv *lib.Driver) Outcome { return Outcome{} }
-func runPipe(sc Scenario, drv *lib.Driver) Outcome  { return Outcome{} }
+func schedScenarios(f lib.Flags) []Scenario {
+	r := lib.NewRand(f.Seed*104729 + 3)
+	n := f.N(250, 3000)
+	var res []Scenario
+	for i := 0; i < n; i++ {
+		sc := SchedCase{Seed: r.Int63(), NS: 1 + r.Intn(3), NL: r.Intn(4), Steps: 8 + r.Intn(30)}
+		if i < 20 {
+			sc.NS, sc.NL, sc.Steps = 1, 1+i%2, 6+i
+		}
+		for t := 0; t < sc.NS; t++ {
+			sc.Todo = append(sc.Todo, 1+r.Intn(3))
+		}
+		res = append(res, Scenario{Mode: "sched", Class: "bus-schedule", Res: "bus", Sched: &sc, BoundMs: boundMs(f)})
+	}
+	return res
+}
+
+// ---------------------------------------------------------------------------------------------
+
+type parkedG struct {
+	point   string
+	release chan struct{}
+}
+
+type busEv struct{ Sender, Seq int }
+
+type senderT struct {
+	gid     int64
+	cmd     chan int // seq to send
+	inCall  bool
+	results []bool
+	cancel  context.CancelFunc
+	sent    int
+	panicS  string
+}
+
+type listenerT struct {
+	ctx       context.Context
+	cancel    context.CancelFunc
+	cancelled bool
+	started   bool
+	returned  bool
+	gid       int64 // goroutine calling Listen
+	wgid      int64 // watcher goroutine
+	ch        <-chan any
+	cgid      int64 // consumer goroutine
+	ccmd      chan struct{}
+	pending   bool
+	got       []busEv
+	sawClose  bool
+}
+
+type ctl struct {
+	mu     sync.Mutex
+	parked map[int64]*parkedG
+	ss     []*senderT
+	ls     []*listenerT
+	bus    *minibus.Bus
+}
+
+var allHdrRe = regexp.MustCompile(`(?m)^goroutine (\d+) \[([^\],]+)(?:, [^\]]*)?\]:`)
+
+func allStates() map[int64]string {
+	res := map[int64]string{}
+	for _, m := range allHdrRe.FindAllStringSubmatch(stackDump(), -1) {
+		id, _ := strconv.ParseInt(m[1], 10, 64)
+		res[id] = m[2]
+	}
+	return res
+}
+
+func (c *ctl) handler(point string) {
+	switch point {
+	case "bus.send.afterSnapshot", "bus.send.beforeListener", "bus.listen.beforeRegister", "listener.stop.enter":
+	default:
+		return
+	}
+	p := &parkedG{point: point, release: make(chan struct{})}
+	gid := verifhook.GoID()
+	c.mu.Lock()
+	c.parked[gid] = p
+	c.mu.Unlock()
+	<-p.release
+}
+
+func (c *ctl) releaseG(gid int64) bool {
+	c.mu.Lock()
+	p := c.parked[gid]
+	delete(c.parked, gid)
+	c.mu.Unlock()
+	if p == nil {
+		return false
+	}
+	close(p.release)
+	return true
+}
+
+// status computes the observation; stable=false if some goroutine is still on its way.
+func (c *ctl) status() (obs string, stable bool) {
+	states := allStates()
+	var watchers []gor
+	for _, g := range census() {
+		for _, fn := range g.Fns {
+			if strings.Contains(fn, "Listen.func1") {
+				watchers = append(watchers, g)
+				break
+			}
+		}
+	}
+	c.mu.Lock()
+	defer c.mu.Unlock()
+	stable = true
+	var parts []string
+	for t, s := range c.ss {
+		st := "?"
+		if p := c.parked[s.gid]; p != nil {
+			if p.point == "bus.send.afterSnapshot" {
+				st = "a"
+			} else {
+				st = "b"
+			}
+		} else if !s.inCall {
+			st = "i"
+		} else {
+			switch states[s.gid] {
+			case "sync.RWMutex.RLock":
+				st = "r"
+			case "select":
+				st = "s"
+			default:
+				stable = false
+			}
+		}
+		if s.panicS != "" {
+			st = "P"
+		}
+		rs := ""
+		for _, ok := range s.results {
+			if ok {
+				rs += "T"
+			} else {
+				rs += "F"
+			}
+		}
+		parts = append(parts, fmt.Sprintf("S%d=%s:%s", t, st, rs))
+	}
+	// assign newly spawned watcher goroutines to the listener whose Listen is in progress
+	assigned := map[int64]bool{}
+	for _, l := range c.ls {
+		if l.wgid != 0 {
+			assigned[l.wgid] = true
+		}
+	}
+	for _, l := range c.ls {
+		if l.started && l.wgid == 0 {
+			var cand []int64
+			for _, w := range watchers {
+				if !assigned[w.ID] {
+					cand = append(cand, w.ID)
+				}
+			}
+			if len(cand) == 1 {
+				l.wgid = cand[0]
+				assigned[cand[0]] = true
+			} else {
+				stable = false
+			}
+		}
+	}
+	for i, l := range c.ls {
+		lp := "-"
+		if l.started {
+			if l.returned {
+				lp = "+"
+			} else if c.parked[l.gid] != nil {
+				lp = "p"
+			} else {
+				lp = "?"
+				stable = false
+			}
+		}
+		wp := "n"
+		if l.started {
+			if l.wgid == 0 {
+				wp = "?"
+			} else if c.parked[l.wgid] != nil {
+				wp = "e"
+			} else if st, alive := states[l.wgid]; !alive {
+				wp = "d"
+			} else if st == "chan receive" {
+				wp = "a"
+			} else if st == "sync.RWMutex.Lock" {
+				wp = "w"
+			} else {
+				wp = "?"
+				stable = false
+			}
+		}
+		var evs []string
+		for _, e := range l.got {
+			evs = append(evs, fmt.Sprintf("%d.%d", e.Sender, e.Seq))
+		}
+		pend := ""
+		if l.pending {
+			pend = "?"
+			if states[l.cgid] != "chan receive" {
+				stable = false
+			}
+		}
+		cl := ""
+		if l.sawClose {
+			cl = "x"
+		}
+		parts = append(parts, fmt.Sprintf("L%d=%s%s[%s]%s%s", i, lp, wp, strings.Join(evs, ","), pend, cl))
+	}
+	return strings.Join(parts, ";"), stable
+}
+
+func (c *ctl) settle(bound time.Duration) (string, bool) {
+	deadline := time.Now().Add(bound)
+	last, n := "", 0
+	for {
+		runtime.Gosched()
+		o, stable := c.status()
+		if stable && o == last {
+			n++
+			if n >= 2 {
+				return o, true
+			}
+		} else {
+			n = 0
+		}
+		last = o
+		if time.Now().After(deadline) {
+			return o, false
+		}
+		time.Sleep(20 * time.Microsecond)
+	}
+}
+
+// applicable macro moves given the last observation
+func (c *ctl) applicable(obs string) []string {
+	var ops []string
+	parts := strings.Split(obs, ";")
+	c.mu.Lock()
+	defer c.mu.Unlock()
+	for t, s := range c.ss {
+		st := parts[t][strings.Index(parts[t], "=")+1:]
+		switch st[0] {
+		case 'i':
+			if s.sent < cap(s.cmd) {
+				ops = append(ops, fmt.Sprintf("send %d", t), fmt.Sprintf("send %d", t))
+			}
+		case 'a', 'b':
+			ops = append(ops, fmt.Sprintf("S %d", t), fmt.Sprintf("S %d", t), fmt.Sprintf("S %d", t))
+			if s.cancel != nil {
+				ops = append(ops, fmt.Sprintf("cancelSend %d", t))
+			}
+		case 'r', 's':
+			if s.cancel != nil {
+				ops = append(ops, fmt.Sprintf("cancelSend %d", t))
+			}
+		}
+	}
+	for i, l := range c.ls {
+		p := parts[len(c.ss)+i]
+		st := p[strings.Index(p, "=")+1:]
+		if !l.started {
+			ops = append(ops, fmt.Sprintf("listen %d", i), fmt.Sprintf("listen %d", i))
+		}
+		if st[0] == 'p' {
+			ops = append(ops, fmt.Sprintf("R %d", i), fmt.Sprintf("R %d", i))
+		}
+		if st[1] == 'e' {
+			ops = append(ops, fmt.Sprintf("W %d", i), fmt.Sprintf("W %d", i))
+		}
+		if !l.cancelled {
+			ops = append(ops, fmt.Sprintf("cancel %d", i))
+		}
+		if l.returned && !l.pending && !l.sawClose {
+			ops = append(ops, fmt.Sprintf("recv %d", i), fmt.Sprintf("recv %d", i))
+		}
+	}
+	sort.Strings(ops)
+	return ops
+}
+
+func (c *ctl) apply(op string) {
+	var k string
+	var i int
+	fmt.Sscanf(op, "%s %d", &k, &i)
+	switch k {
+	case "send":
+		s := c.ss[i]
+		c.mu.Lock()
+		s.inCall = true
+		s.sent++
+		seq := s.sent
+		c.mu.Unlock()
+		s.cmd <- seq
+	case "S":
+		c.releaseG(c.ss[i].gid)
+	case "cancelSend":
+		c.mu.Lock()
+		cf := c.ss[i].cancel
+		c.ss[i].cancel = nil
+		c.mu.Unlock()
+		if cf != nil {
+			cf()
+		}
+	case "cancel":
+		c.mu.Lock()
+		c.ls[i].cancelled = true
+		c.mu.Unlock()
+		c.ls[i].cancel()
+	case "listen":
+		l := c.ls[i]
+		ready := make(chan struct{})
+		go func() {
+			c.mu.Lock()
+			l.gid = verifhook.GoID()
+			l.started = true
+			c.mu.Unlock()
+			close(ready)
+			ch := c.bus.Listen(l.ctx)
+			c.mu.Lock()
+			l.ch = ch
+			l.returned = true
+			c.mu.Unlock()
+		}()
+		<-ready
+	case "R":
+		c.releaseG(c.ls[i].gid)
+	case "W":
+		c.releaseG(c.ls[i].wgid)
+	case "recv":
+		l := c.ls[i]
+		c.mu.Lock()
+		l.pending = true
+		c.mu.Unlock()
+		l.ccmd <- struct{}{}
+	}
+}
+
+func runSched(sc Scenario, drv *lib.Driver) (out Outcome) {
+	o := &out
+	cs := sc.Sched
+	bound := time.Duration(sc.BoundMs) * time.Millisecond
+	waitBaseline(bound)
+	c := &ctl{parked: map[int64]*parkedG{}, bus: &minibus.Bus{}}
+	verifhook.Set(c.handler)
+	defer verifhook.Set(nil)
+	stop := make(chan struct{})
+	defer close(stop)
+	var started sync.WaitGroup
+	for t := 0; t < cs.NS; t++ {
+		s := &senderT{cmd: make(chan int, cs.Todo[t])}
+		c.ss = append(c.ss, s)
+		started.Add(1)
+		go func() {
+			s.gid = verifhook.GoID()
+			started.Done()
+			for {
+				select {
+				case <-stop:
+					return
+				case seq := <-s.cmd:
+					ctx, cancel := context.WithCancel(context.Background())
+					c.mu.Lock()
+					s.cancel = cancel
+					c.mu.Unlock()
+					var ok bool
+					panicked, msg := lib.Catch(func() { ok = c.bus.Send(ctx, busEv{t, seq}) })
+					cancel()
+					c.mu.Lock()
+					s.cancel = nil
+					if panicked {
+						s.panicS = msg
+					}
+					s.results = append(s.results, ok)
+					s.inCall = false
+					c.mu.Unlock()
+				}
+			}
+		}()
+	}
+	for i := 0; i < cs.NL; i++ {
+		ctx, cancel := context.WithCancel(context.Background())
+		l := &listenerT{ctx: ctx, cancel: cancel, ccmd: make(chan struct{})}
+		c.ls = append(c.ls, l)
+		started.Add(1)
+		go func() {
+			l.cgid = verifhook.GoID()
+			started.Done()
+			for {
+				select {
+				case <-stop:
+					return
+				case <-l.ccmd:
+					c.mu.Lock()
+					ch := l.ch
+					c.mu.Unlock()
+					v, ok := <-ch
+					c.mu.Lock()
+					if ok {
+						l.got = append(l.got, v.(busEv))
+					} else {
+						l.sawClose = true
+					}
+					l.pending = false
+					c.mu.Unlock()
+				}
+			}
+		}()
+	}
+	started.Wait()
+
+	var todo []string
+	for _, n := range cs.Todo {
+		todo = append(todo, fmt.Sprint(n))
+	}
+	if ans, err := drv.Ask(fmt.Sprintf("init %d %d %s", cs.NS, cs.NL, strings.Join(todo, ","))); err != nil || ans != "ok" {
+		o.Ties = append(o.Ties, TieRec{Tie: tieSched, Err: fmt.Sprintf("driver init: %v %s", err, ans)})
+		return
+	}
+	r := rand.New(rand.NewSource(cs.Seed))
+	obs, _ := c.settle(bound)
+	var done []string
+	agree := true
+	model, code := "", ""
+	nontrivial := false
+	step := func(op string) bool {
+		if strings.HasPrefix(op, "cancel ") && strings.ContainsAny(strings.SplitN(obs, ";L", 2)[0], "abrs") {
+			nontrivial = true
+		}
+		if strings.HasPrefix(op, "cancel ") {
+			c.mu.Lock()
+			for _, p := range c.parked {
+				o.count("tie:cancel-while-parked-at:" + p.point)
+			}
+			c.mu.Unlock()
+		}
+		c.apply(op)
+		done = append(done, op)
+		o.count("tie:op:" + strings.Fields(op)[0])
+		var stable bool
+		obs, stable = c.settle(bound)
+		if !stable {
+			agree, model, code = false, "a quiescent state", "not quiescent within "+bound.String()+" after "+strings.Join(done, " / ")+": "+obs+" || "+censusSummary(census())
+			return false
+		}
+		ans, err := drv.Ask("op " + obs + " " + op)
+		if err != nil {
+			o.Ties = append(o.Ties, TieRec{Tie: tieSched, Err: "driver: " + err.Error()})
+			agree = false
+			return false
+		}
+		if ans != "ok "+obs {
+			agree, model, code = false, ans+"  (after "+strings.Join(done, " / ")+")", obs
+			return false
+		}
+		if strings.Contains(obs, "=P") {
+			o.violate(monShutdown, "C10/bus/Send/panic", "Bus.Send panicked", "no panic", obs)
+		}
+		return true
+	}
+	for i := 0; i < cs.Steps && agree; i++ {
+		ops := c.applicable(obs)
+		if len(ops) == 0 {
+			break
+		}
+		if !step(ops[r.Intn(len(ops))]) {
+			break
+		}
+	}
+	// wind down: cancel everything and release everybody until nothing is left to do
+	for guard := 0; guard < 200 && agree; guard++ {
+		var next string
+		for _, op := range c.applicable(obs) {
+			k := strings.Fields(op)[0]
+			if k == "cancel" || k == "S" || k == "W" || k == "R" {
+				next = op
+				if k == "cancel" {
+					break
+				}
+			}
+		}
+		if next == "" {
+			break
+		}
+		if !step(next) {
+			break
+		}
+	}
+	if agree {
+		model, code = "ok "+obs, "ok "+obs
+		// the model ends with every watcher done and every sender idle: the census must be empty
+		o.eval(monShutdown, "goroutines-baseline/bus-schedule", cs.NL > 0)
+		// stop workers first so that only code-under-test goroutines could remain
+		if ok, left, _ := waitBaseline(bound); !ok {
+			o.violate(monShutdown, "C10/bus/goroutine-leak", "goroutines of cancelled listeners are still alive after the schedule wound down",
+				"no goroutine inside internal/minibus", censusSummary(left)+" after "+strings.Join(done, " / "))
+		}
+		for _, l := range c.ls {
+			if l.returned && !strings.Contains(obs, "?") {
+				o.count("tie:listener-ended")
+			}
+		}
+	}
+	o.Ties = append(o.Ties, TieRec{Tie: tieSched, Key: strings.Join(done, "/"), Nontrivial: nontrivial, Model: model, Code: code})
+	// release anything still parked so the goroutines can end
+	for _, l := range c.ls {
+		l.cancel()
+	}
+	c.mu.Lock()
+	for _, s := range c.ss {
+		if s.cancel != nil {
+			s.cancel()
+		}
+	}
+	var gids []int64
+	for g := range c.parked {
+		gids = append(gids, g)
+	}
+	c.mu.Unlock()
+	verifhook.Set(nil)
+	for _, g := range gids {
+		c.releaseG(g)
+	}
+	for i := 0; i < 50; i++ {
+		c.mu.Lock()
+		gids = gids[:0]
+		for g := range c.parked {
+			gids = append(gids, g)
+		}
+		c.mu.Unlock()
+		for _, g := range gids {
+			c.releaseG(g)
+		}
+		if ok, _, _ := waitBaseline(2 * time.Millisecond); ok {
+			break
+		}
+	}
+	return out
+}
+
+func runPipe(sc Scenario, drv *lib.Driver) Outcome { return Outcome{} }
